@@ -138,6 +138,20 @@ def rule_mirror(check):
                 hof = f.parent(cl) if cl else None
                 in_place = hof is not None and hir.is_call(hof) and (hir.callee_name(hof) or hof.get("method")) == "map_with_mut"
                 check.expect(ok and in_place, R, "%s/in-place/%s" % (R, f.name), hir.loc(par), "operand replaced in place by Expr::Ident(temp) or kept", "%s does not put the returned temporary (or the untouched operand) back in place" % f.name)
+                continue
+            # the same written as `if let Some(ident) = <call> { *operand = Expr::Ident(ident); }`
+            bound = [lid for lid, b_ in f.bindings().items() if b_["origin"][0] == "match" and hir.peel(b_["origin"][1]) is n and str(hir.pat_variant(b_["origin"][3])).split("::")[-1] == "Some"]
+            if bound and (f.rec.get("self_ty") or "") .find("IdentProvider") < 0 and f.name != "get_ident_used_in_assignation":
+                n_sites += 1
+                op_place = (hir.place(hir.call_args(n)[1]) or "?")
+                writes = [a_ for a_ in f.nodes() if a_.get("k") == "Assign" and (hir.place(a_["l"]) or "") == op_place]
+                okw = False
+                for a_ in writes:
+                    r_ = hir.peel(a_["r"])
+                    is_ident = r_.get("k") == "Call" and (hir.peel(r_["f"]).get("res", {}).get("ctor_path") or "").endswith("Expr::Ident") and r_.get("args") and (hir.local_of(r_["args"][0]) or (None,))[0] in bound
+                    under = any(c_["t"] == "pat" and c_["v"] and hir.peel(c_.get("scrut") or {}) is n for c_ in f.conds_at(a_))
+                    okw = okw or (is_ident and under)
+                check.expect(okw and len(writes) == 1, R, "%s/in-place/%s" % (R, f.name), hir.loc(n), "operand replaced in place by Expr::Ident(temp) or kept", "%s does not put the returned temporary (or the untouched operand) back in place" % f.name)
     check.floor(R, "in-place replacement sites", n_sites, 1)
     # literals and kept identifiers are pushed as they are
     f = prog.fn_opt("OperandHandler::replace_literals")
@@ -149,7 +163,7 @@ def rule_mirror(check):
     for n in keep:
         inner = hir.peel(hir.call_args(n)[1])
         e = hir.call_args(inner)[1] if hir.is_call(inner) and hir.callee_name(inner) == "get_expr_or_spread" else inner
-        o = pv.origins(f, e)
+        o = pv.origins_at(f, e, n)
         atoms = gate.atoms_at(f, n)
         arm = [hir.pat_variant(c["pat"]).split("::")[-1] for c in f.conds_at(n) if c["t"] == "pat" and c["v"] and isinstance(hir.pat_variant(c["pat"]), str) and "Expr::" in hir.pat_variant(c["pat"])]
         same = all(r[0] == "param" and r[2] == 0 for r, p in o)
@@ -646,6 +660,8 @@ def rule_call_signature(check):
         os_ = pv.origins(h, hir.call_args(n)[1])
         none_ = bool(os_) and all(r[0] == "ctor" and r[1].split("::")[-1] == "None" for r, p_ in os_)
         check.expect(none_, R, R + "/bare-callee-kept", hir.loc(n), "bare call: no callee replacement is requested", "the bare-call path asks for the callee to be replaced (%s): `f(x)` is no longer a call of the identifier" % sorted(origin_str(o) for o in os_))
+    # the parameter of replace_call_callee_and_args that carries the optional callee temporary (whatever it is called)
+    cal_names = {hir.pat_bindings(p_["pat"])[0]["name"] for p_ in rc.rec.get("params", []) if "Option<swc_ecma_ast::Expr>" in (p_.get("ty") or "") and hir.pat_bindings(p_["pat"])} or {"ident_callee_expr"}
     writers = []
     for f_ in prog.user_fns:
         for n in f_.nodes():
@@ -655,7 +671,7 @@ def rule_call_signature(check):
                     writers.append((f_, n))
     for f_, n in writers:
         atoms = gate.atoms_at(f_, n)
-        ok_ = f_ is rc and any(a[0] == "variant" and a[3] is True and str(a[2]).split("::")[-1] == "Some" and (a[1] or "").split("#")[0] == "ident_callee_expr" for a in atoms)
+        ok_ = f_ is rc and any(a[0] == "variant" and a[3] is True and str(a[2]).split("::")[-1] == "Some" and (a[1] or "").split("#")[0] in cal_names for a in atoms)
         check.expect(ok_, R, "%s/callee-write/%s" % (R, f_.name), hir.loc(n), "the callee of the cloned call is replaced only when a callee temporary is supplied", "%s overwrites the callee of a call outside the reviewed member path: the emitted call is no longer the original call" % f_.name)
     # the same decision written as a value: `CallExpr { callee: match ident_callee_expr { Some(i) => <member>,
     # None => call.callee.clone() }, .. }`
@@ -674,7 +690,7 @@ def rule_call_signature(check):
         for r, p_ in fresh:
             node_ = prog.by_def[r[2]].by_id(r[3]) if len(r) > 3 and r[2] in prog.by_def else None
             at_ = gate.atoms_at(rc, node_) if node_ is not None and r[2] == rc.def_path else []
-            under_some = under_some and any(a[0] == "variant" and a[3] is True and str(a[2]).split("::")[-1] == "Some" and (a[1] or "").split("#")[0] == "ident_callee_expr" for a in at_)
+            under_some = under_some and any(a[0] == "variant" and a[3] is True and str(a[2]).split("::")[-1] == "Some" and (a[1] or "").split("#")[0] in cal_names for a in at_)
         ok_ = bool(kept) and bool(fresh) and under_some and not other
         check.expect(ok_, R, "%s/callee-write/%s" % (R, rc.name), hir.loc(n), "the callee of the emitted call is the member path when a callee temporary is supplied, the original callee otherwise", "%s builds the emitted call with a callee that is not `the supplied temporary's member path, else the original callee` (%s)" % (rc.name, sorted(origin_str(o) for o in os_)))
     check.floor(R, "callee writes", len(writers) + len(built), 1)
@@ -903,6 +919,45 @@ def _full_forward_drain(f, n):
     return False
 
 
+_HOIST_BASE = {"replace_expressions_in_expr": 0, "replace_expressions_in_expr_or_spread": 0, "replace_default": 0, "get_ident_used_in_assignation": 1, "get_temporal_ident_used_in_assignation": 1}
+_HP_MEMO = {}
+
+
+def _hoisted_positions(prog, call, depth=0):
+    """argument positions (call_args indexing) of `call` whose value is hoisted / replaced by the callee - directly
+    (the operand parameter of the operand handler and of the temp helper) or through a crate helper that hands
+    its parameter on to one; None when the callee is not a crate function (no refinement)"""
+    name = hir.callee_name(call) or call.get("method") or ""
+    if name in _HOIST_BASE:
+        return {_HOIST_BASE[name]}
+    h = prog.resolve_local(call)
+    if h is None or h.body is None or depth > 3:
+        return None
+    if h.def_path in _HP_MEMO:
+        return _HP_MEMO[h.def_path]
+    _HP_MEMO[h.def_path] = None
+    out = set()
+    found_inner = False
+    off = 0
+    for c in h.nodes():
+        if not hir.is_call(c) or c is call:
+            continue
+        hp = _hoisted_positions(prog, c, depth + 1)
+        if not hp:
+            continue
+        found_inner = True
+        ca = hir.call_args(c)
+        for i_ in hp:
+            if i_ < len(ca):
+                l_ = hir.local_of(hir.peel_transparent(ca[i_]))
+                b_ = h.bindings().get(l_[0]) if l_ else None
+                if b_ and b_["origin"][0] == "param" and not b_["origin"][2]:
+                    out.add(b_["origin"][1])
+    res = out if found_inner and out else None
+    _HP_MEMO[h.def_path] = res
+    return res
+
+
 def rule_order(check):
     R = "ORDER"
     check.rule(R, "evaluation order is the order of pushes into `assignations`: no reordering operation on operand collections (the one reviewed exception inserts the this-argument at index 0); operands of one node are hoisted in ECMAScript order (left before right, object before property, callee before arguments); operand collections are iterated forwards")
@@ -939,7 +994,10 @@ def rule_order(check):
             a = hir.call_args(n)
             if not any("assignations" == (hir.local_of(x) or (0, ""))[1] or (hir.place(x) or "").endswith(".assignments") for x in a):
                 continue
-            for x in a:
+            hp_ = _hoisted_positions(prog, n)
+            for ix_, x in enumerate(a):
+                if hp_ is not None and ix_ not in hp_:
+                    continue  # an argument the callee only looks at (the sibling that decides the mode, ..)
                 p = hir.place(x, transparent=True)
                 if p and "." in p:
                     base, fld = p.rsplit(".", 1)
@@ -1091,22 +1149,56 @@ def rule_ident_mode(check):
         raise AnchorMissing("the function that derives an IdentMode from the sibling operand (%d candidates)" % len(deciders))
     g = deciders[0]
     entry = prog.fn("BinaryAddTransform::to_dd_binary_expr")
-    fs = [h for h in prog.flat(entry, 3) if len([n for n in hir.calls_in(h.body, name="replace_expressions_in_expr")]) >= 2 and h.name != "replace_expressions_in_expr"]
+    def _operand_calls(h):
+        """calls of h that hoist `<x>.left` / `<x>.right` (directly or through a helper)"""
+        out_ = []
+        for n_ in h.nodes():
+            if not hir.is_call(n_) or n_.get("exp"):
+                continue
+            hp_ = _hoisted_positions(prog, n_)
+            a_ = hir.call_args(n_)
+            if hp_ and any(i_ < len(a_) and (hir.place(a_[i_]) or "").split(".")[-1] in ("left", "right") for i_ in hp_):
+                out_.append(n_)
+        return out_
+
+    fs = [h for h in prog.flat(entry, 3) if len(_operand_calls(h)) >= 2 and h.name != "replace_expressions_in_expr"]
     if not fs:
         raise AnchorMissing("the function of the binary transform that replaces both operands")
     f = fs[0]
-    calls = [n for n in hir.calls_in(f.body, name="replace_expressions_in_expr")]
+    calls = _operand_calls(f)
     check.floor(R, "operand replacements in the binary transform", len(calls), 2)
+
+    def _mode_source(h, call_, depth=0):
+        """the expression (in h) whose sibling the decider looks at for this hoisting call"""
+        a_ = hir.call_args(call_)
+        if (hir.callee_name(call_) or "") in ("replace_expressions_in_expr", "replace_expressions_in_expr_or_spread") and len(a_) > 1:
+            m0 = hir.peel(a_[1])
+            l0 = hir.local_of(m0)
+            if l0 and h.bindings()[l0[0]]["origin"][0] == "let" and h.bindings()[l0[0]]["origin"][1] is not None:
+                m0 = hir.peel(h.bindings()[l0[0]]["origin"][1])
+            if hir.is_call(m0) and prog.resolve_local(m0) is g and hir.call_args(m0):
+                return hir.call_args(m0)[0]
+            return None
+        hh = prog.resolve_local(call_)
+        if hh is None or hh.body is None or depth > 2:
+            return None
+        for inner in hh.nodes():
+            if hir.is_call(inner) and _hoisted_positions(prog, inner):
+                srcx = _mode_source(hh, inner, depth + 1)
+                lx = hir.local_of(hir.peel_transparent(srcx)) if srcx is not None else None
+                bx = hh.bindings().get(lx[0]) if lx else None
+                if bx and bx["origin"][0] == "param" and bx["origin"][1] < len(a_):
+                    return a_[bx["origin"][1]]
+        return None
+
     for n in calls:
         a = hir.call_args(n)
-        operand = (hir.place(a[0]) or "").split(".")[-1]
-        m_ = hir.peel(a[1])
-        l = hir.local_of(m_)
-        if l and f.bindings()[l[0]]["origin"][0] == "let" and f.bindings()[l[0]]["origin"][1] is not None:
-            m_ = hir.peel(f.bindings()[l[0]]["origin"][1])
-        src = None
-        if hir.is_call(m_) and prog.resolve_local(m_) is g and hir.call_args(m_):
-            src = (hir.place(hir.call_args(m_)[0]) or "").split(".")[-1]
+        hp_n = sorted(_hoisted_positions(prog, n) or {0})
+        operand = (hir.place(a[hp_n[0]]) or "").split(".")[-1]
+        srcx = _mode_source(f, n)
+        src = (hir.place(srcx) or "").split(".")[-1] if srcx is not None else None
+        if False:
+            pass
         other = {"left": "right", "right": "left"}.get(operand)
         check.expect(src == other, R, "%s/%s" % (R, operand), hir.loc(n), "mode of %s = %s(%s)" % (operand, g.name, src), "the keep/replace mode of binary.%s derives from %s (must be %s(binary.%s))" % (operand, src or hir.describe(a[1]), g.name, other))
     # Keep exactly when the sibling is an identifier or a literal
@@ -1808,7 +1900,7 @@ def rule_node_rebuild(check):
             all_fields = [x["name"] for x in adt["variants"][0]["fields"]] if adt else []
             dropped = [x for x in all_fields if x not in listed]
             check.expect(from_orig, R, key, hir.loc(s), "the fields not listed are taken from the original node", "the new %s replaces the original one but takes %s from `%s`, not from the original: these fields of the input are lost" % (ty.split("::")[-1], ", ".join(dropped) or "the unlisted fields", re.sub(r"#\\d+", "", hir.describe(base))[:40]))
-    check.floor(R, "AST nodes rebuilt next to their original", n, 5)
+    check.floor(R, "AST nodes rebuilt next to their original", n, 3)
 
 
 def deep_origins(prog, pv, f, e, depth=0, seen=None):
@@ -2112,6 +2204,13 @@ def rule_not_modified_untouched(check):
             continue
         n_fn += 1
         n_w += len(_writes_of(prog, f, memo))
+        # a helper that is only called by other transform functions is judged where it is called: whether the node
+        # it writes to is a received one or the caller's own copy is only known there (the call counts as a write
+        # of the caller unless the helper never declines after writing)
+        callers_ = [cf for cf, cn in prog.sites_calling(f) if hir.is_call(cn) and not cf.rec.get("gen") and not cf.rec.get("in_test")]
+        tf_ = {x_.def_path for x_ in xform_fns(prog)}
+        if callers_ and all(cf.def_path in tf_ and not (cf.name or "").startswith("visit_") for cf in callers_):
+            continue
         for w, what, x in _violations_nmu(prog, f, memo, vmemo):
             check.bad(R, "%s/%s" % (R, f.name), hir.loc(w), "%s: %s, and the path can go on to a declining answer (%s): the caller keeps the node with that write in it and prints it as untouched code" % (f.name, what, hir.loc(x)))
     check.floor(R, "transform functions with a declining answer", n_fn, 5)
